@@ -17,6 +17,8 @@ import traceback
 from . import ir, smt, libmodel
 
 VERIF = os.path.dirname(os.path.dirname(os.path.abspath(__file__)))
+# where evidence/ and replays/ are written (default: the checkout); trial runs on scratch copies redirect it
+OUT = os.environ.get('VERIF_OUT') or VERIF
 
 
 class Ob(object):
@@ -278,8 +280,8 @@ class Check(object):
             'assumptions': self.assumptions, 'wall_s': round(time.time() - self.t0, 2),
             'violations': len(self.violations),
         }
-        os.makedirs(os.path.join(VERIF, 'evidence'), exist_ok=True)
-        with open(os.path.join(VERIF, 'evidence', self.prop + '.json'), 'w') as f:
+        os.makedirs(os.path.join(OUT, 'evidence'), exist_ok=True)
+        with open(os.path.join(OUT, 'evidence', self.prop + '.json'), 'w') as f:
             json.dump(evidence, f, indent=1, default=str)
         for name, text in [(k[0], k[1]) for k in self.known]:
             print('KNOWN-FINDING: property=%s %s' % (self.prop, text))
@@ -356,7 +358,7 @@ class Check(object):
             rep['native_replay'] = None
             suffix = ' no-failing-input-found'
         h = hashlib.sha256((ob.name + json.dumps(model, sort_keys=True, default=str)).encode()).hexdigest()[:10]
-        d = os.path.join(VERIF, 'replays', self.prop)
+        d = os.path.join(OUT, 'replays', self.prop)
         os.makedirs(d, exist_ok=True)
         path = os.path.join(d, '%s.%s.json' % (ob.name.replace('/', '_'), h))
         with open(path, 'w') as f:
@@ -375,7 +377,7 @@ class Check(object):
         rep = {'property': self.prop, 'obligation': name, 'kind': 'bounded', 'case': case, 'detail': detail,
                'native_replay': {'confirmed': True, 'detail': detail}}
         h = hashlib.sha256((name + json.dumps(case, sort_keys=True, default=str)).encode()).hexdigest()[:10]
-        d = os.path.join(VERIF, 'replays', self.prop)
+        d = os.path.join(OUT, 'replays', self.prop)
         os.makedirs(d, exist_ok=True)
         path = os.path.join(d, '%s.%s.json' % (name.replace('/', '_'), h))
         with open(path, 'w') as f:
